@@ -312,8 +312,110 @@ pub fn check_history_independence(ctx: &Ctx, name: &str, alpha: &[Call], triple:
       total.viol(violation(name, alpha, suffix, &alone[last], &got, false));
     }
   }
-  json!({"alphabet": name, "calls": n, "ordered_pairs": pairs_done, "triple_alphabet": triple.len(), "ordered_triples": triples_done, "quadruple_alphabet": triple.len().min(QUAD_ALPHABET), "ordered_quadruples": quads_done,
+  let stress = if total.nviol == 0 || std::env::var("HPXMC_FORCE_STRESS").is_ok() { concurrent_stress(ctx, name, alpha, &alone, total) } else { json!("skipped (a violation was already found)") };
+  json!({"alphabet": name, "calls": n, "concurrent_stress_sampled": stress, "ordered_pairs": pairs_done, "triple_alphabet": triple.len(), "ordered_triples": triples_done, "quadruple_alphabet": triple.len().min(QUAD_ALPHABET), "ordered_quadruples": quads_done,
     "oracle": "bit-identical to the same call made alone in a fresh thread", "wall_s": t0.elapsed().as_secs_f64()})
+}
+
+
+/// Corroborating pass, NOT part of the exhaustive claim (it samples schedules): `nthreads` free-
+/// running threads execute the calls of the alphabet concurrently, each in its own rotation, for a
+/// bounded time; every result must equal the result of the call made alone.  The functions are
+/// pure, so no schedule can produce a difference on a correct tree; a difference means hidden
+/// shared state outside the hook points (which the schedule exploration of C20 cannot reach).
+pub fn concurrent_stress(ctx: &Ctx, name: &str, alpha: &[Call], alone: &[Res], total: &mut Part) -> Value {
+  use std::sync::atomic::{AtomicBool, AtomicU64, Ordering};
+  let n = alpha.len();
+  let nthreads = 8usize;
+  let budget = std::time::Duration::from_millis(if ctx.quick() { 400 } else { 4000 });
+  let t0 = std::time::Instant::now();
+  let stop = AtomicBool::new(false);
+  let executed = AtomicU64::new(0);
+  let first: std::sync::Mutex<Option<(usize, usize, Res)>> = std::sync::Mutex::new(None);
+  const STEPS: [usize; 8] = [1, 7, 11, 13, 17, 19, 23, 29];
+  // groups of calls sharing the function and its first integer argument (depth / nside): all the
+  // threads work on the same group during the same time slice, so that state shared per function
+  // and per depth is really contended
+  let mut groups: std::collections::BTreeMap<(&str, u64), Vec<usize>> = std::collections::BTreeMap::new();
+  for (k, c) in alpha.iter().enumerate() {
+    groups.entry((c.f, c.u.first().copied().unwrap_or(u64::MAX))).or_default().push(k);
+  }
+  let mut groups: Vec<Vec<usize>> = groups.into_values().collect();
+  // ... and coarse groups (one per function, all depths mixed; and the whole alphabet): state
+  // shared ACROSS depths / functions needs threads working at different depths at the same time
+  let mut coarse: std::collections::BTreeMap<&str, Vec<usize>> = std::collections::BTreeMap::new();
+  for (k, c) in alpha.iter().enumerate() {
+    coarse.entry(c.f).or_default().push(k);
+  }
+  let nfine = groups.len();
+  groups.extend(coarse.into_values());
+  groups.push((0..n).collect());
+  // half of the time for the fine groups, half for the coarse ones: interleave them
+  let mut order: Vec<Vec<usize>> = vec![];
+  let ncoarse = groups.len() - nfine;
+  for i in 0..nfine.max(ncoarse) {
+    order.push(groups[i % nfine].clone());
+    order.push(groups[nfine + i % ncoarse].clone());
+  }
+  let groups = order;
+  let slice = budget.as_secs_f64() / groups.len() as f64;
+  std::thread::scope(|s| {
+    for t in 0..nthreads {
+      let (stop, executed, first, groups) = (&stop, &executed, &first, &groups);
+      s.spawn(move || {
+        let mut done = 0u64;
+        let mut pos = t * 7919;
+        'outer: loop {
+          let el = t0.elapsed().as_secs_f64();
+          let gi = (el / slice) as usize;
+          if gi >= groups.len() || stop.load(Ordering::Relaxed) {
+            break;
+          }
+          let g = &groups[gi];
+          let mut step = STEPS[t % 8];
+          while gcd(step, g.len()) != 1 {
+            step += 1;
+          }
+          for _ in 0..64 {
+            pos = (pos + step) % g.len();
+            let k = g[pos];
+            // a thread repeats each call (hit after miss) before moving on
+            for _ in 0..2 {
+              let r = run(&alpha[k]);
+              done += 1;
+              if r != alone[k] {
+                let mut f = first.lock().unwrap();
+                if f.is_none() {
+                  *f = Some((t, k, r));
+                }
+                stop.store(true, Ordering::Relaxed);
+                break 'outer;
+              }
+            }
+          }
+        }
+        executed.fetch_add(done, Ordering::Relaxed);
+      });
+    }
+  });
+  let done = executed.load(Ordering::Relaxed);
+  // (not added to the state / transition counters: those count exhaustively enumerated work only)
+  if let Some((t, k, r)) = first.into_inner().unwrap() {
+    total.viol(Viol {
+      api: alpha[k].f.to_string(),
+      kind: "result-depends-on-concurrent-calls".into(),
+      case: json!({"sequence_alphabet": name, "concurrent": true, "sequence": [k], "last_calls": [alpha[k].describe()]}),
+      expected: format!("{} = {} (the result of the same call made alone; the functions are pure)", alpha[k].describe(), show(&alone[k])),
+      actual: "a different result while other threads were calling the functions of the alphabet (free-running threads: sampled, not exhaustive)".into(),
+    });
+    let _ = (t, r);
+  }
+  json!({"threads": nthreads, "calls_executed": done, "wall_s": t0.elapsed().as_secs_f64(), "exhaustive": false,
+    "note": "free-running threads (sampling): corroboration only, not counted in the exhaustive bound"})
+}
+
+fn gcd(a: usize, b: usize) -> usize {
+  if b == 0 { a } else { gcd(b, a % b) }
 }
 
 /// The hook called by `report::finish`.
@@ -328,6 +430,22 @@ pub fn replay(case: &Value, alpha: &[Call]) -> Option<Viol> {
   let idx: Vec<usize> = case["sequence"].as_array().expect("sequence").iter().map(|v| v.as_u64().unwrap() as usize).collect();
   if idx.iter().any(|&k| k >= alpha.len()) {
     panic!("seq replay: index out of the alphabet {}", name);
+  }
+  if case.get("concurrent").is_some() {
+    // sampled schedules: repeat the stress a few times; the report text is fixed so that two
+    // detections compare equal in the replay protocol
+    let alone: Vec<Res> = (0..alpha.len()).map(|k| last_of(alpha, &[k])).collect();
+    let ctx = Ctx { id: name.clone(), tier: "thorough".into(), seed: 0, verif_dir: String::new(), start: std::time::Instant::now(), config: "replay".into(), findings: Findings { raw: Value::Null }, budget_s: 60.0 };
+    for _ in 0..5 {
+      let mut part = Part::new();
+      concurrent_stress(&ctx, &name, alpha, &alone, &mut part);
+      if let Some(mut v) = part.viols.into_iter().next() {
+        v.case = case.clone();
+        v.expected = "every call returns the result it returns alone".into();
+        return Some(v);
+      }
+    }
+    return None;
   }
   let last = *idx.last().unwrap();
   let alone = last_of(alpha, &[last]);
